@@ -32,6 +32,9 @@ type StreamSpec struct {
 	// preceded by non-final fixed-Huffman blocks (empty ones of 10 bits, and one holding the single
 	// literal 0xC8 of 19 bits) whose total length is Shift modulo 8
 	Shift int `json:"shift,omitempty"`
+	// Tail > 0 (kind std): the last Tail bytes of the data are not given to the Writer; it is flushed
+	// instead of closed and the harness appends them as a FINAL STORED block (a shape no Writer emits)
+	Tail int `json:"tail,omitempty"`
 }
 
 // shiftPrefix returns the prefix blocks for a bit shift of k (1..7): their bits (LSB first), the
@@ -96,17 +99,34 @@ func (s StreamSpec) Build() (z []byte, expected []byte, known bool, err error) {
 		if e != nil {
 			return nil, nil, false, e
 		}
+		tail := s.Tail
+		if tail < 0 || tail > len(data) || tail > 65535 {
+			tail = 0
+		}
+		body := data[:len(data)-tail]
 		off := 0
 		for _, op := range s.Ops {
 			switch op.K {
 			case "W":
-				w.Write(data[off : off+op.N])
-				off += op.N
+				end := off + op.N
+				if end > len(body) {
+					end = len(body)
+				}
+				if off < end {
+					w.Write(body[off:end])
+				}
+				off = end
 			case "F":
 				w.Flush()
 			}
 		}
-		w.Close()
+		if tail > 0 {
+			w.Flush()
+			buf.Write([]byte{1, byte(tail), byte(tail >> 8), ^byte(tail), ^byte(tail >> 8)})
+			buf.Write(data[len(data)-tail:])
+		} else {
+			w.Close()
+		}
 		z, expected, known = buf.Bytes(), data, true
 	case "fast":
 		data := s.Data.Bytes()
